@@ -156,7 +156,7 @@ def r5(cx):
 
 def _closures_of(cx, body):
     out = []
-    for b in cx.mir.bodies(body.pkg):
+    for b in body.unit.bodies:
         if b.promoted is not None or not b.parent: continue
         par = b.parent
         if par == body.path or par in [p for p, _ in getattr(body, "inlined", [])]: out.append(b)
